@@ -155,7 +155,7 @@ var plans = map[string]plan{
 		Required:    []string{"pooled objects used by >= 2 goroutines", "executions", "cycles writer+reader", "cycles skip-decoders", "cycles ttheader", "cycles binary+fastcodec", "cycles shared-maps", "cycles own-maps", "cycles peek-retain"},
 		Assumptions: []string{"absence of a race report says nothing about interleavings that were not produced"},
 		Quick:       []job{{"race", 4}, {"plain", 2}},
-		Thorough:    []job{{"gcstress", 4}, {"race", 12}, {"yield", 6}, {"plain", 6}, {"go126-race", 6}},
+		Thorough:    []job{{"race", 12}, {"yield", 6}, {"plain", 6}, {"go126-race", 6}}, // (no gcstress: clobberfree touches every freed buffer of 64 goroutines, RSS only)
 	},
 }
 
